@@ -62,6 +62,264 @@ def _mm(pyvar, lean, fallback):
                 outputs=[(pyvar, lean)], fallback={lean: fallback})
 
 
+
+# ---------------------------------------------------------------------------------------------------------------
+# Slices of AeRes.py written as small Python functions inside the translator's whitelist (scratch file), from the
+# AST of the tree under test.  Anything a slicer does not recognise is written as a call the translator rejects, so
+# that piece is reported UNTRANSLATABLE and its hand definition stands in (every target below fixes its parameter
+# list with `all_params`, so an unreadable right-hand side can never turn silently into an input).
+#
+#   skip_x / skip_y   `if not LO <= xo < HI: continue` (in make_model, or in a straight-line helper it calls as
+#                     `if not helper(xo, yo, shape): … continue`): LO, HI as real expressions of n = shape[axis]
+#   skip_ops          the two comparison operators of each chain: 2*[first is <=] + [second is <=]   (<=, <  ->  2)
+#   thr               the right-hand sides of `model >= …` in the `frac is not None` / else branches (written in
+#                     place or through a temporary)
+#   mask_op           the comparison itself: 1 for >=, 0 for >
+#   resid             `if TEST: residual = data + model  else: residual = data - model` as  plus(add, mask) in {0,1}
+#   fwhm              the module constant FWHM2CC with np.log(2) / math.log(2) as the parameter ln2
+import ast as _ast
+import copy as _copy
+import hashlib as _hashlib
+import os as _os
+import tempfile as _tempfile
+
+
+def _bad(head, names, why):
+    first = names[0]
+    body = [f"    {first} = untranslatable({why!r})"] + [f"    {n} = {first}" for n in names[1:]]
+    return head + "\n".join(body) + "\n"
+
+
+class _Sub(_ast.NodeTransformer):
+    """replace sub-expressions (by their unparsed text) with names"""
+
+    def __init__(self, table):
+        self.table = table
+
+    def generic_visit(self, node):
+        if isinstance(node, _ast.expr):
+            key = _ast.unparse(node)
+            if key in self.table:
+                return _ast.Name(id=self.table[key], ctx=_ast.Load())
+        return super().generic_visit(node)
+
+
+def _sub(node, table):
+    return _ast.unparse(_ast.fix_missing_locations(_Sub(table).visit(_copy.deepcopy(node))))
+
+
+def _func(tree, name):
+    for n in tree.body:
+        if isinstance(n, _ast.FunctionDef) and n.name == name:
+            return n
+    return None
+
+
+def _centre_names(fn):
+    """names of the 1-based row / column centre: the first two of the five names unpacked from sky2pix_ellipse
+    (directly, or from a temporary bound to that call)"""
+    temps = set()
+    for n in _ast.walk(fn):
+        if isinstance(n, _ast.Assign) and len(n.targets) == 1 and isinstance(n.value, _ast.Call) \
+                and _ast.unparse(n.value.func).endswith('sky2pix_ellipse') and isinstance(n.targets[0], _ast.Name):
+            temps.add(n.targets[0].id)
+    for n in _ast.walk(fn):
+        if isinstance(n, _ast.Assign) and len(n.targets) == 1 and isinstance(n.targets[0], _ast.Tuple) \
+                and len(n.targets[0].elts) == 5 and all(isinstance(e, _ast.Name) for e in n.targets[0].elts):
+            v = n.value
+            if (isinstance(v, _ast.Call) and _ast.unparse(v.func).endswith('sky2pix_ellipse')) or \
+                    (isinstance(v, _ast.Name) and v.id in temps):
+                return n.targets[0].elts[0].id, n.targets[0].elts[1].id
+    return None
+
+
+def _chains(stmts, xname, yname, shape, leave):
+    """`if not A <= v < B: <leave>` statements for v in (xname, yname); `leave` tests the last statement of the body"""
+    out = {}
+    for st in stmts:
+        if isinstance(st, _ast.If) and isinstance(st.test, _ast.UnaryOp) and isinstance(st.test.op, _ast.Not) \
+                and isinstance(st.test.operand, _ast.Compare) and len(st.test.operand.ops) == 2 \
+                and not st.orelse and st.body and leave(st.body[-1]):
+            c = st.test.operand
+            mid = c.comparators[0]
+            if isinstance(mid, _ast.Name) and mid.id in (xname, yname):
+                axis = 0 if mid.id == xname else 1
+                if axis in out:
+                    return None                      # two tests on the same coordinate: not the shape we know
+                out[axis] = (c.left, c.ops, c.comparators[1], shape)
+    return out if len(out) == 2 else None
+
+
+def _skip_slices(tree, fn):
+    heads = ["def skip_x(n):\n", "def skip_y(n):\n", "def skip_ops():\n"]
+    bad = _bad(heads[0], ['lo', 'hi'], 'skip rule not recognised') + "\n\n" + \
+        _bad(heads[1], ['lo', 'hi'], 'skip rule not recognised') + "\n\n" + \
+        _bad(heads[2], ['ox', 'oy'], 'skip rule not recognised')
+    names = _centre_names(fn)
+    if names is None:
+        return bad
+    loops = [n for n in _ast.walk(fn) if isinstance(n, _ast.For)]
+    found = None
+    for lp in loops:
+        found = _chains(lp.body, names[0], names[1], 'shape', lambda s: isinstance(s, _ast.Continue))
+        if found:
+            break
+        # `if not helper(xo, yo, shape): … continue` with a straight-line helper of the same shape
+        for st in lp.body:
+            if isinstance(st, _ast.If) and isinstance(st.test, _ast.UnaryOp) and isinstance(st.test.op, _ast.Not) \
+                    and isinstance(st.test.operand, _ast.Call) and isinstance(st.test.operand.func, _ast.Name) \
+                    and st.body and isinstance(st.body[-1], _ast.Continue) and not st.test.operand.keywords:
+                call = st.test.operand
+                h = _func(tree, call.func.id)
+                args = [a.id if isinstance(a, _ast.Name) else None for a in call.args]
+                if h is None or len(h.args.args) != len(args) or names[0] not in args or names[1] not in args \
+                        or 'shape' not in args or h.args.defaults or h.args.kwonlyargs:
+                    continue
+                par = [a.arg for a in h.args.args]
+                body = [b for b in h.body if not (isinstance(b, _ast.Expr) and isinstance(b.value, _ast.Constant))]
+                ret_false = lambda s: isinstance(s, _ast.Return) and isinstance(s.value, _ast.Constant) and s.value.value is False
+                ok_tail = body and isinstance(body[-1], _ast.Return) and isinstance(body[-1].value, _ast.Constant) \
+                    and body[-1].value.value is True and all(isinstance(b, _ast.If) for b in body[:-1])
+                if ok_tail:
+                    found = _chains(body[:-1], par[args.index(names[0])], par[args.index(names[1])],
+                                    par[args.index('shape')], ret_false)
+                if found:
+                    break
+        if found:
+            break
+    if not found:
+        return bad
+    opcode = {_ast.LtE: 1, _ast.Lt: 0}
+    texts, codes = [], []
+    for axis in (0, 1):
+        lo, ops, hi, shape = found[axis]
+        if type(ops[0]) not in opcode or type(ops[1]) not in opcode:
+            return bad
+        table = {f"{shape}[{axis}]": 'n'}
+        if f"{shape}[{1 - axis}]" in _ast.unparse(hi) or f"{shape}[{1 - axis}]" in _ast.unparse(lo):
+            return bad                                # the bound of one axis written with the other axis' length
+        texts.append(heads[axis] + f"    lo = {_sub(lo, table)}\n    hi = {_sub(hi, table)}\n")
+        codes.append(2 * opcode[type(ops[0])] + opcode[type(ops[1])])
+    return texts[0] + "\n\n" + texts[1] + "\n\n" + heads[2] + f"    ox = {codes[0]}\n    oy = {codes[1]}\n"
+
+
+def _gauss_names(fn):
+    return [n.targets[0].id for n in _ast.walk(fn)
+            if isinstance(n, _ast.Assign) and len(n.targets) == 1 and isinstance(n.targets[0], _ast.Name)
+            and isinstance(n.value, _ast.Call)
+            and (n.value.func.attr if isinstance(n.value.func, _ast.Attribute) else getattr(n.value.func, 'id', None)) == 'elliptical_gaussian']
+
+
+def _thr_slices(fn):
+    heads = ["def thr(frac, sigma, peak, rms):\n", "def mask_op():\n"]
+    bad = _bad(heads[0], ['tf', 'ts'], 'mask thresholds not recognised') + "\n\n" + _bad(heads[1], ['code'], 'mask comparison not recognised')
+    g = _gauss_names(fn)
+    if len(g) != 1:
+        return bad
+    g = g[0]
+    sites = [n for n in _ast.walk(fn) if isinstance(n, _ast.If) and _ast.unparse(n.test) == 'frac is not None' and n.orelse]
+    if len(sites) != 1:
+        return bad
+    site = sites[0]
+    cmps = [n for n in _ast.walk(fn) if isinstance(n, _ast.Compare) and isinstance(n.left, _ast.Name) and n.left.id == g]
+    if not cmps or any(len(c.ops) != 1 or type(c.ops[0]) not in (_ast.GtE, _ast.Gt) for c in cmps) \
+            or len({type(c.ops[0]) for c in cmps}) != 1:
+        return bad
+    code = 1 if isinstance(cmps[0].ops[0], _ast.GtE) else 0
+
+    def branch(stmts):
+        inside = [c for st in stmts for c in _ast.walk(st) if c in cmps]
+        if len(inside) == 1:
+            return inside[0].comparators[0]
+        if inside:
+            return None
+        # through a temporary: the branch assigns t = <expr>, and (one) comparison `g >= t` follows the if
+        asg = [st for st in stmts if isinstance(st, _ast.Assign) and len(st.targets) == 1 and isinstance(st.targets[0], _ast.Name)]
+        if len(stmts) != 1 or len(asg) != 1:
+            return None
+        outside = [c for c in cmps if isinstance(c.comparators[0], _ast.Name) and c.comparators[0].id == asg[0].targets[0].id]
+        if len(outside) != 1 or len(cmps) != 1:
+            return None
+        return asg[0].value
+    ef, es = branch(site.body), branch(site.orelse)
+    if ef is None or es is None:
+        return bad
+    table = {'src.peak_flux': 'peak', 'src.local_rms': 'rms'}
+    return heads[0] + f"    tf = {_sub(ef, table)}\n    ts = {_sub(es, table)}\n" + "\n\n" + heads[1] + f"    code = {code}\n"
+
+
+class _Bools(_ast.NodeTransformer):
+    """add / mask in boolean position -> (add == 1); `not add` -> (add == 0)"""
+
+    def visit_UnaryOp(self, node):
+        if isinstance(node.op, _ast.Not) and isinstance(node.operand, _ast.Name) and node.operand.id in ('add', 'mask'):
+            return _ast.Compare(left=node.operand, ops=[_ast.Eq()], comparators=[_ast.Constant(0)])
+        return self.generic_visit(node)
+
+    def visit_Name(self, node):
+        if node.id in ('add', 'mask'):
+            return _ast.Compare(left=node, ops=[_ast.Eq()], comparators=[_ast.Constant(1)])
+        return node
+
+
+def _resid_slice(fn):
+    head = "def resid(add, mask):\n"
+    bad = _bad(head, ['plus'], 'add / subtract dispatch not recognised')
+
+    def sign(stmts):
+        if len(stmts) == 1 and isinstance(stmts[0], _ast.Assign) and isinstance(stmts[0].value, _ast.BinOp) \
+                and isinstance(stmts[0].value.left, _ast.Name) and isinstance(stmts[0].value.right, _ast.Name) \
+                and stmts[0].value.left.id == 'data' and stmts[0].value.right.id == 'model':
+            return {_ast.Add: 1, _ast.Sub: 0}.get(type(stmts[0].value.op))
+        return None
+    sites = [n for n in _ast.walk(fn) if isinstance(n, _ast.If) and sign(n.body) is not None and sign(n.orelse) is not None]
+    if len(sites) != 1 or sign(sites[0].body) == sign(sites[0].orelse):
+        return bad
+    test = _ast.unparse(_ast.fix_missing_locations(_Bools().visit(_copy.deepcopy(sites[0].test))))
+    a, b = sign(sites[0].body), sign(sites[0].orelse)
+    return head + f"    plus = {a} if ({test}) else {b}\n"
+
+
+def _fwhm_slice(tree):
+    head = "def fwhm(ln2):\n"
+    bad = _bad(head, ['k'], 'FWHM2CC not recognised')
+    asg = [n for n in tree.body if isinstance(n, _ast.Assign) and len(n.targets) == 1
+           and isinstance(n.targets[0], _ast.Name) and n.targets[0].id == 'FWHM2CC']
+    if len(asg) != 1:
+        return bad
+    return head + f"    k = {_sub(asg[0].value, {'np.log(2)': 'ln2', 'math.log(2)': 'ln2', 'np.log(2.0)': 'ln2'})}\n"
+
+
+def _slices():
+    repo = _os.environ.get('AEGEAN_REPO', '/repo')
+    try:
+        tree = _ast.parse(open(_os.path.join(repo, 'AegeanTools', 'AeRes.py')).read())
+        mm, mr = _func(tree, 'make_model'), _func(tree, 'make_residual')
+        text = "\n\n".join([_skip_slices(tree, mm), _thr_slices(mm), _resid_slice(mr), _fwhm_slice(tree)])
+    except Exception as exc:
+        text = f"# slicing failed: {exc!r}\n"
+    d = _os.path.join(_tempfile.gettempdir(), 'verif-C14-slices')
+    _os.makedirs(d, exist_ok=True)
+    path = _os.path.join(d, 'AeRes_' + _hashlib.sha1(text.encode()).hexdigest()[:12] + '.py')
+    if not _os.path.exists(path):
+        with open(path + '.tmp%d' % _os.getpid(), 'w') as f:
+            f.write(text)
+        _os.replace(path + '.tmp%d' % _os.getpid(), path)
+    return path
+
+
+_S = _slices()
+
+
+def _fbA(name, params, hand):
+    return f"def {name} {{α : Type}} [R α] ({' '.join(params)} : α) : α := {_H}.{hand} {' '.join(params)}"
+
+
+def _real(func, outs, params):
+    return dict(file=_S, func=func, mode='real', params={q: 'A' for q in params}, outputs=[(v, l) for v, l, _ in outs],
+                fallback={l: _fbA(l, params, h) for _, l, h in outs}, all_params=params)
+
+
 TARGETS = [
     dict(file='AegeanTools/fitting.py', func='elliptical_gaussian', mode='real',
          params={p: 'A' for p in _G}, subst={}, outputs=[], returns='gauss',
@@ -73,4 +331,16 @@ TARGETS = [
     _mm(_gauss_result_name(), 'modelVal',
         'def modelVal {α : Type} [R α] (FWHM2CC peak xo yo sx sy theta x y : α) : α := '
         f'{_H}.modelValHand FWHM2CC peak xo yo sx sy theta x y'),
+    _real('skip_x', [('lo', 'skipLoX', 'skipLoHand'), ('hi', 'skipHiX', 'skipHiHand')], ['n']),
+    _real('skip_y', [('lo', 'skipLoY', 'skipLoHand'), ('hi', 'skipHiY', 'skipHiHand')], ['n']),
+    dict(file=_S, func='skip_ops', mode='int', params={}, outputs=[('ox', 'skipOpsX'), ('oy', 'skipOpsY')],
+         fallback={'skipOpsX': f'def skipOpsX : Nat := {_H}.skipOpsHand', 'skipOpsY': f'def skipOpsY : Nat := {_H}.skipOpsHand'},
+         all_params=[]),
+    _real('thr', [('tf', 'thrFrac', 'thrFracHand'), ('ts', 'thrSigma', 'thrSigmaHand')], ['frac', 'sigma', 'peak', 'rms']),
+    dict(file=_S, func='mask_op', mode='int', params={}, outputs=[('code', 'maskOp')],
+         fallback={'maskOp': f'def maskOp : Nat := {_H}.maskOpHand'}, all_params=[]),
+    dict(file=_S, func='resid', mode='int', params={'add': 'N', 'mask': 'N'}, outputs=[('plus', 'residPlus')],
+         fallback={'residPlus': f'def residPlus (add mask : Nat) : Nat := {_H}.residPlusHand add mask'},
+         all_params=['add', 'mask']),
+    _real('fwhm', [('k', 'fwhm2ccOf', 'fwhm2ccOfHand')], ['ln2']),
 ]
